@@ -68,6 +68,10 @@ CHECKS = {
          "Batches are first executed as one agdb transaction on a local reference database, then the concrete queries are submitted to the real server's exec_mut/exec; refused batches must leave the read-back unchanged, applied ones must equal the reference, and the audit log must list exactly the mutating queries of applied batches in order with the submitting user, also after restarts.",
          "Reference = agdb's own transaction (decided by C13/C03/C32). Finite floats only (JSON cannot carry NaN). Property/edge order may differ after a refused batch (documented rollback behaviour).", "6/C25"),
 
+ "C24": ("srvsim", "exploration", "deterministic simulation: the real server in-process; seeded multi-user request histories with clock jumps past token expiry (H5 hook) and server restarts, judged by a permission model",
+         "Every request is issued with a seeded token (live, logged-out, expired, garbage, none); a model built from the documented permission table predicts allow/deny, the status class must agree, and after every request the observable state (users, databases, roles, node counts via a separate admin probe session) must equal the model.",
+         "Expiry judged with a 50 s margin; requests whose outcome the documentation leaves open are not generated. Single-node server.", "6/C24"),
+
  "C04": ("dbsim", "exploration", "deterministic simulation: seeded storage histories with clean restarts, I/O noise and forced contended reads, checked operation by operation against a byte-level reference model",
          "Seeded search over storage-operation histories on all three back-ends; after every operation every live value is read back and compared with the model, removed values must be unreadable, and after defragmentation / restart the file must hold no unused space.",
          "Valid requests only; fault-free configuration (the crash configuration is C01). The model is 60 lines and mirrors the documented semantics of insert-at/move/resize.", "6/C04"),
